@@ -15,6 +15,7 @@ import (
 	"time"
 
 	"github.com/gotid/god/internal/verifdrv"
+	"github.com/gotid/god/lib/errorx"
 )
 
 // Thin interpreter for the C07 correspondence: runs one scripted MapReduce-family call and reports
@@ -38,8 +39,12 @@ type verifCase struct {
 	GPanic  int         `json:"gpanic"` // -1: none
 	RTake   int         `json:"rtake"`  // -1: range over the pipe
 	RAfter  []verifAct  `json:"rafter"` // write | panic | sleep (ms)
-	Ctx     string      `json:"ctx"`    // none | pre | live
+	Ctx     string      `json:"ctx"`    // none | pre | live | gate (cancelled by the driver while the generator waits at the gate)
 	Seed    int64       `json:"seed"`
+	NilItem int         `json:"nilitem1"` // 1 + index of the item the generator sends as untyped nil (0: none)
+	Gate    int         `json:"gate1"`    // the generator blocks before sending item Gate-1 until released (0: none)
+	Release string      `json:"release"` // gate: "re" = after the reducer returned (bounded wait), "now" = at once
+	AEOps   []verifAct  `json:"aeops"`   // fn AtomicError: set k | load
 }
 
 type verifErr struct{ code int }
@@ -49,6 +54,86 @@ func (e verifErr) Error() string { return fmt.Sprintf("verif-err-%d", e.code) }
 type verifPanic struct{ code int }
 
 type verifVal struct{ I, K int }
+
+// typed nils: non-nil error interfaces holding a nil pointer / nil slice
+type verifPtrErr struct{ code int }
+
+func (e *verifPtrErr) Error() string { return "verif-ptr-err" }
+
+type verifSliceErr []int
+
+func (e verifSliceErr) Error() string { return "verif-slice-err" }
+
+// error codes: 0 untyped nil, 1 typed nil pointer, 2 typed nil slice, 3 non-nil pointer, >= 100 value type
+func verifErrOf(code int) error {
+	switch code {
+	case 0:
+		return nil
+	case 1:
+		return (*verifPtrErr)(nil)
+	case 2:
+		return verifSliceErr(nil)
+	case 3:
+		return &verifPtrErr{3}
+	}
+	return verifErr{code}
+}
+
+func verifErrCode(err error) int {
+	switch e := err.(type) {
+	case nil:
+		return 0
+	case *verifPtrErr:
+		if e == nil {
+			return 1
+		}
+		return 3
+	case verifSliceErr:
+		if e == nil {
+			return 2
+		}
+		return -9
+	case verifErr:
+		return e.code
+	}
+	return -9
+}
+
+// value codes (< 10: special raw values, written without origin tag): 0 untyped nil, 1 int 0, 2 "", 3 nil *int in an any
+func verifRaw(code int) any {
+	switch code {
+	case 0:
+		return nil
+	case 1:
+		return 0
+	case 2:
+		return ""
+	case 3:
+		return (*int)(nil)
+	}
+	return code
+}
+
+func verifRawCode(v any) int {
+	switch x := v.(type) {
+	case nil:
+		return 0
+	case int:
+		if x == 0 {
+			return 1
+		}
+		return x
+	case string:
+		if x == "" {
+			return 2
+		}
+	case *int:
+		if x == nil {
+			return 3
+		}
+	}
+	return -9
+}
 
 type verifLog struct {
 	mu  sync.Mutex
@@ -94,7 +179,7 @@ func verifOutcome(v any, err error, void bool) map[string]any {
 	case err == nil && void:
 		return map[string]any{"kind": "nil"}
 	case err == nil:
-		if k, ok := v.(int); ok {
+		if k := verifRawCode(v); k >= 0 {
 			return map[string]any{"kind": "ret", "v": k}
 		}
 		return map[string]any{"kind": "other", "s": fmt.Sprint(v)}
@@ -105,11 +190,10 @@ func verifOutcome(v any, err error, void bool) map[string]any {
 	case errors.Is(err, context.DeadlineExceeded):
 		return map[string]any{"kind": "err", "e": -2}
 	default:
-		var ve verifErr
-		if errors.As(err, &ve) {
-			return map[string]any{"kind": "err", "e": ve.code}
+		if k := verifErrCode(err); k > 0 {
+			return map[string]any{"kind": "err", "e": k}
 		}
-		return map[string]any{"kind": "other", "s": err.Error()}
+		return map[string]any{"kind": "other", "s": "unknown error"}
 	}
 }
 
@@ -132,7 +216,28 @@ func verifPanicOutcome(p any) map[string]any {
 	}
 }
 
+func verifAtomicError(c verifCase) map[string]any {
+	var ae errorx.AtomicError
+	res := make([]int, 0, len(c.AEOps))
+	for _, op := range c.AEOps {
+		switch op.Op {
+		case "set":
+			if panicked, _ := verifdrv.Catch(func() { ae.Set(verifErrOf(op.K)) }); panicked {
+				res = append(res, -1)
+			} else {
+				res = append(res, 1)
+			}
+		case "load":
+			res = append(res, verifErrCode(ae.Load()))
+		}
+	}
+	return map[string]any{"ae": res, "outcome": map[string]any{"kind": "nil"}, "trace": [][]any{}, "leaked": 0}
+}
+
 func verifRun(c verifCase) map[string]any {
+	if c.Fn == "AtomicError" {
+		return verifAtomicError(c)
+	}
 	lg := &verifLog{rng: rand.New(rand.NewSource(c.Seed))}
 	retCh := make(chan struct{})
 	hangLimit := 4 * time.Second
@@ -146,7 +251,7 @@ func verifRun(c verifCase) map[string]any {
 
 	ctx := context.Background()
 	cancelCtx := func() {}
-	if c.Ctx == "pre" || c.Ctx == "live" {
+	if c.Ctx == "pre" || c.Ctx == "live" || c.Ctx == "gate" {
 		ctx, cancelCtx = context.WithCancel(context.Background())
 		if c.Ctx == "pre" {
 			cancelCtx()
@@ -160,22 +265,42 @@ func verifRun(c verifCase) map[string]any {
 		opts = append(opts, WithContext(ctx))
 	}
 
+	gateReached := make(chan struct{})
+	gateOpen := make(chan struct{})
+	itemIndex := func(item any) int {
+		if item == nil {
+			return c.NilItem - 1
+		}
+		return item.(int)
+	}
 	runActs := func(i int, writer Writer, cancel func(error)) {
 		lg.add("ms", i)
 		defer lg.add("me", i)
+		defer func() { // a panic the script did not raise (e.g. out of writer.Write) is an observation of its own
+			if r := recover(); r != nil {
+				if _, scripted := r.(verifPanic); !scripted {
+					lg.add("px", i)
+				}
+				panic(r)
+			}
+		}()
 		for _, a := range c.Items[i].Acts {
 			lg.jitter()
 			switch a.Op {
 			case "write":
 				lg.add("wr", i, a.K)
 				if writer != nil {
-					writer.Write(verifVal{i, a.K})
+					if a.K < 10 {
+						writer.Write(verifRaw(a.K))
+					} else {
+						writer.Write(verifVal{i, a.K})
+					}
 				}
 				lg.add("wd", i, a.K)
 			case "cancel":
 				lg.add("cb", i, a.K)
 				if cancel != nil {
-					cancel(verifErr{a.K})
+					cancel(verifErrOf(a.K))
 				}
 				lg.add("ce", i)
 			case "cancelnil":
@@ -204,7 +329,16 @@ func verifRun(c verifCase) map[string]any {
 	generate := func(source chan<- any) {
 		for i := range c.Items {
 			lg.jitter()
-			source <- i
+			if i+1 == c.Gate {
+				lg.add("gw", i)
+				close(gateReached)
+				<-gateOpen
+			}
+			if i+1 == c.NilItem {
+				source <- nil
+			} else {
+				source <- i
+			}
 			lg.add("sent", i)
 		}
 		if c.GPanic >= 0 {
@@ -213,16 +347,30 @@ func verifRun(c verifCase) map[string]any {
 		}
 	}
 	mapper := func(item any, writer Writer, cancel func(error)) {
-		runActs(item.(int), writer, cancel)
+		runActs(itemIndex(item), writer, cancel)
 	}
+	reDone := make(chan struct{})
+	var reOnce sync.Once
 	reduceBody := func(pipe <-chan any, writer Writer) {
+		defer reOnce.Do(func() { close(reDone) })
+		defer func() {
+			if r := recover(); r != nil {
+				if _, scripted := r.(verifPanic); !scripted {
+					lg.add("rpx")
+				}
+				panic(r)
+			}
+		}()
 		for n := 0; c.RTake < 0 || n < c.RTake; n++ {
 			v, ok := <-pipe
 			if !ok {
 				break
 			}
-			vv := v.(verifVal)
-			lg.add("rr", vv.I, vv.K)
+			if vv, ok := v.(verifVal); ok {
+				lg.add("rr", vv.I, vv.K)
+			} else {
+				lg.add("rr", -1, verifRawCode(v)) // raw special value: no origin tag
+			}
 			lg.jitter()
 		}
 		for _, a := range c.RAfter {
@@ -231,7 +379,7 @@ func verifRun(c verifCase) map[string]any {
 			case "write":
 				lg.add("rw", a.K)
 				if writer != nil {
-					writer.Write(a.K)
+					writer.Write(verifRaw(a.K))
 				}
 				lg.add("rd", a.K)
 			case "panic":
@@ -262,7 +410,7 @@ func verifRun(c verifCase) map[string]any {
 			err := MapReduceVoid(generate, mapper, func(pipe <-chan any, cancel func(error)) { reduceBody(pipe, nil) }, opts...)
 			return verifOutcome(nil, err, true)
 		case "ForEach":
-			ForEach(generate, func(item any) { runActs(item.(int), nil, nil) }, opts...)
+			ForEach(generate, func(item any) { runActs(itemIndex(item), nil, nil) }, opts...)
 			return map[string]any{"kind": "nil"}
 		case "Finish":
 			fns := make([]func() error, len(c.Items))
@@ -296,6 +444,27 @@ func verifRun(c verifCase) map[string]any {
 		}
 		before = n
 		time.Sleep(200 * time.Microsecond)
+	}
+
+	if c.Gate > 0 {
+		go func() {
+			select {
+			case <-gateReached:
+			case <-retCh: // the call ended without the generator reaching the gate
+			}
+			if c.Ctx == "gate" {
+				lg.add("cx", len(c.Items)) // logged before the cancellation takes effect
+				cancelCtx()
+			}
+			if c.Release == "re" {
+				select {
+				case <-reDone:
+				case <-time.After(2 * time.Second):
+				}
+			}
+			lg.add("gr")
+			close(gateOpen)
+		}()
 	}
 
 	resCh := make(chan map[string]any, 1)
